@@ -44,6 +44,9 @@
 //@}
 //@fn check_valid_base
 //@rules R5
+//@pre{
+#[verifier::loop_isolation(false)]
+//@}
 //@ret r
 //@head{
     requires h_wf(*helper), helper.block_len == 256, h_active(*helper, base as int)
@@ -63,6 +66,9 @@
     proof { lemma_same_block(base, c, h_lo(*helper), h_hi(*helper)); }
 //@}
 //@fn remove_invalid_checks
+//@pre{
+#[verifier::loop_isolation(false)]
+//@}
 //@head{
     requires b_inv(*old(self), *helper), h_lo(*helper) <= block_idx as int * helper.block_len as int, block_idx < helper.num_blocks
     ensures b_inv(*final(self), *helper), final(self).states@.len() == old(self).states@.len(),
@@ -128,6 +134,9 @@
 //@}
 //@fn find_base
 //@rules R3own
+//@pre{
+#[verifier::loop_isolation(false)]
+//@}
 //@ret r
 //@head{
     requires b_inv(*self, *helper), labels@.len() > 0
